@@ -311,23 +311,29 @@ def run(R):
     R.minimum('C02.MPT.3', 5)
     # ------------------------------------------------------------------ MPT.2 digest checkers
     R.ob('C02.MPT.2', 'digest checkers: truthy only through digest == value; empty covered part or missing value is falsy')
+    import re as _re
+
+    def _U(e):
+        # names as written in the source: the suffix that marks the locals of an expanded helper (`ret__h1`) is dropped, so that the core of a
+        # checker moved into a shared helper and expanded back reads like the original
+        return _re.sub(r'__h\d+\b', '', ast.unparse(e))
     for q, typed in ((DV + '.sha256_digest_checker', True), (DV + '.params_sha256_checker', False)):
         cx = ctx(R, q)
         inst = q
         probs = []
-        cmpn = [n for n in cx.cfg.nodes if n.kind == 'stmt' and isinstance(n.ast, ast.Assign) and ast.unparse(n.ast.targets[0]) == 'ret'
-                and ast.unparse(n.ast.value) in ('sha256_algo.digest() == sig_value', 'sig_value == sha256_algo.digest()')]
-        falses = [n for n in cx.cfg.nodes if n.kind == 'stmt' and isinstance(n.ast, ast.Assign) and ast.unparse(n.ast.targets[0]) == 'ret'
+        cmpn = [n for n in cx.cfg.nodes if n.kind == 'stmt' and isinstance(n.ast, ast.Assign) and _U(n.ast.targets[0]) == 'ret'
+                and _U(n.ast.value) in ('sha256_algo.digest() == sig_value', 'sig_value == sha256_algo.digest()')]
+        falses = [n for n in cx.cfg.nodes if n.kind == 'stmt' and isinstance(n.ast, ast.Assign) and _U(n.ast.targets[0]) == 'ret'
                   and isinstance(n.ast.value, ast.Constant) and n.ast.value.value is False]
-        other = [n for n in cx.cfg.nodes if n.kind == 'stmt' and isinstance(n.ast, ast.Assign) and ast.unparse(n.ast.targets[0]) == 'ret' and n not in cmpn + falses]
+        other = [n for n in cx.cfg.nodes if n.kind == 'stmt' and isinstance(n.ast, ast.Assign) and _U(n.ast.targets[0]) == 'ret' and n not in cmpn + falses]
         if len(cmpn) != 1 or other:
             probs.append(('the verdict is not `computed digest == carried digest`', (other or cmpn or [cx.cfg.entry])[0].ast or cx.f.node))
-        empt = [t for t in cx.cfg.nodes if t.kind == 'test' and ast.unparse(t.ast) in ('covered_part', 'sig_value')]
+        empt = [t for t in cx.cfg.nodes if t.kind == 'test' and _U(t.ast) in ('covered_part', 'sig_value')]
         if len(empt) != 2 or not falses or (cmpn and cmpn[0].id in cx.cfg.reachable(removed_edges={(empt[0].id, True)})) or \
                 (cmpn and cmpn[0].id in cx.cfg.reachable(removed_edges={(empt[1].id, True)})):
             probs.append(('an empty covered part or a missing digest value is not refused', cx.f.node))
         for r in returns(cx):
-            v = ast.unparse(r.ast.value)
+            v = _U(r.ast.value)
             if v == 'ret':
                 continue
             if typed and v == 'True':
@@ -350,7 +356,7 @@ def run(R):
                     probs.append(('True is returned for a digest-typed packet without comparing digests', r.ast))
                 continue
             probs.append((f'returns {v}', r.ast))
-        srcs = {nm: ast.unparse(v) for n in cx.cfg.nodes for (nm, v) in cx.cfg.defs_of(n) if isinstance(v, ast.AST) and nm in ('covered_part', 'sig_value')}
+        srcs = {nm: _U(v) for n in cx.cfg.nodes for (nm, v) in cx.cfg.defs_of(n) if isinstance(v, ast.AST) and nm in ('covered_part', 'sig_value')}
         want = {'covered_part': 'sig.signature_covered_part', 'sig_value': 'sig.signature_value_buf'} if typed else \
             {'covered_part': 'sig.digest_covered_part', 'sig_value': 'sig.digest_value_buf'}
         if srcs != want:
